@@ -23,7 +23,7 @@ use vcore::{vassert, Cx, Fail, Res};
 
 use interp::Env;
 use rt::{Rec, Sc, Tp, L};
-use tree::{unwinds, Carry, Case, Form, Header, PItem, PNode, Prog};
+use tree::{unwinds, Carry, Case, Form, Header, PItem, PNode, Prog, RunHow};
 
 pub const SIG_FRAME_CURRENT_HOP: &str = "frame-current-hop-drops-traceparent";
 
@@ -96,6 +96,14 @@ struct Judge<'a> {
     complete_with_unsampled: bool,
     /// somewhere above (not necessarily innermost) a pushed / received header established the trace
     in_header_scope_any: bool,
+    /// what was active where each `CaptureFrame` ran, by slot
+    captured: BTreeMap<usize, Active>,
+    foreign_in_sampled_span: bool,
+    foreign_in_unsampled_span: bool,
+    foreign_under_header: bool,
+    foreign_how_call: bool,
+    foreign_how_enter: bool,
+    foreign_how_future: bool,
     // planned panics
     /// a planned panic is travelling up through the program being walked
     unwinding: bool,
@@ -127,6 +135,7 @@ fn count_spans(items: &[PItem]) -> usize {
     items
         .iter()
         .map(|it| match it {
+            PItem::Catch { items, .. } | PItem::RunFrame { items, .. } => count_spans(items),
             PItem::Span(n) => 1 + count_spans(&n.items),
             PItem::Push { items, .. } | PItem::Service { items, .. } | PItem::Hop { items, .. } => count_spans(items),
             PItem::Join { tasks, .. } => tasks.iter().map(|t| count_spans(t)).sum(),
@@ -228,6 +237,7 @@ impl<'a> Judge<'a> {
         let lost = Active { unknown: true, ..a };
         if a.unknown {
             self.span_recs.remove(&n.id);
+            self.calls.remove(&n.id);
             return Ok(lost);
         }
         let calls = self.calls.remove(&n.id).unwrap_or_default();
@@ -421,6 +431,23 @@ impl<'a> Judge<'a> {
         }
     }
 
+    /// A frame captured outside any trace is entered inside one (on the same thread).
+    fn foreign_frame(&mut self, how: RunHow, a: Active) {
+        if self.in_header_scope {
+            self.foreign_under_header = true;
+        } else if a.sampled() {
+            self.foreign_in_sampled_span = true;
+        } else {
+            self.foreign_in_unsampled_span = true;
+        }
+        match how {
+            RunHow::Call => self.foreign_how_call = true,
+            RunHow::EnterGuard => self.foreign_how_enter = true,
+            RunHow::InFuture => self.foreign_how_future = true,
+            RunHow::OtherThread => {}
+        }
+    }
+
     /// The unwind stops here (an explicit `Catch`, or the top of a hop / service / hand-off thread).
     fn caught(&mut self, same_thread_goes_on: bool) {
         if self.unwinding {
@@ -445,6 +472,65 @@ impl<'a> Judge<'a> {
                 self.caught(true);
                 // "the previous traceparent is restored": after the unwind it is what it was before the scopes
                 self.check(*post, a, cx, "after catch_unwind")
+            }
+            PItem::CaptureFrame { slot, .. } => {
+                // the frame is a snapshot of what is active right here
+                self.captured.insert(*slot, a);
+                Ok(())
+            }
+            PItem::RunFrame { frame, how, items, pre, end, post, .. } => {
+                let Some(slot) = frame else {
+                    // no captured frame available: the items simply run here
+                    self.check(*pre, a, cx, "run-frame without a frame")?;
+                    self.items(items, a, cx)?;
+                    if self.unwinding {
+                        return Ok(());
+                    }
+                    return self.check(*post, a, cx, "after run-frame without a frame");
+                };
+                let elsewhere = *how == RunHow::OtherThread;
+                let c = self.captured.get(slot).copied().unwrap_or(Active { unknown: true, ..NOTHING });
+                let inner = if a.unknown || c.unknown {
+                    Active { unknown: true, ..a }
+                } else if c.tp.is_some() {
+                    // captured inside a trace: the frame carries that traceparent wherever it is entered
+                    c
+                } else if elsewhere || a.tp.is_none() {
+                    // captured outside any trace and entered where nothing is active either
+                    NOTHING
+                } else {
+                    // captured outside any trace, entered inside one: what is visible while it is entered (the
+                    // surrounding trace, or nothing) is not stated — nothing inside is judged
+                    cx.dont_care();
+                    self.foreign_frame(*how, a);
+                    Active { unknown: true, ..a }
+                };
+                let saved_after = elsewhere.then(|| std::mem::replace(&mut self.after_panic, false));
+                let saved = std::mem::replace(&mut self.in_header_scope, false);
+                self.check(*pre, inner, cx, "inside the captured frame")?;
+                self.items(items, inner, cx)?;
+                self.in_header_scope = saved;
+                if self.unwinding {
+                    if c.tp.is_some() && !inner.unknown {
+                        self.unwound_through(if elsewhere || *how != RunHow::InFuture { UnwoundScope::IncomingFrame } else { UnwoundScope::IncomingFrameAsync }, c.sampled());
+                    } else {
+                        // still a frame the unwind has to leave properly
+                        self.unwound_scopes += 1;
+                    }
+                    if !elsewhere {
+                        return Ok(());
+                    }
+                    self.exit_panic_far_thread = true;
+                    self.caught(false);
+                }
+                if let Some(v) = saved_after {
+                    self.after_panic = v;
+                }
+                if let Some(end) = end {
+                    self.check(*end, if a.unknown { a } else { NOTHING }, cx, "far thread, after the captured frame was left")?;
+                }
+                // "the previous traceparent is restored": exactly what it was before the frame was entered
+                self.check(*post, a, cx, "after the captured frame was left")
             }
             PItem::Event { id } => self.event(*id, a, cx),
             PItem::Check { id } => self.check(*id, a, cx, "explicit"),
@@ -545,7 +631,9 @@ impl<'a> Judge<'a> {
             }
             PItem::Service { id, items, pre, end, post } => {
                 if a.unknown {
-                    return self.items(items, a, cx);
+                    self.items(items, a, cx)?;
+                    self.caught(false);
+                    return Ok(());
                 }
                 let text = self.svc.get(id).cloned().unwrap_or(None);
                 let inner = match (a.tp.filter(|t| t.valid()), text) {
@@ -582,7 +670,9 @@ impl<'a> Judge<'a> {
             }
             PItem::Hop { id, carry, fut, items, pre, end, post } => {
                 if a.unknown {
-                    return self.items(items, a, cx);
+                    self.items(items, a, cx)?;
+                    self.caught(false);
+                    return Ok(());
                 }
                 if *carry == Carry::FrameCurrent && a.valid() && count_spans(items) > 0 {
                     self.frame_current_hop_with_spans = true;
@@ -642,12 +732,13 @@ pub fn check_case(case: &Case, cx: &mut Cx) -> Res {
     let (rt, rec, log) = rt::build(case);
     let fail = Mutex::new(None);
     let skip_broken_hops = cx.is_known(SIG_FRAME_CURRENT_HOP);
+    let frames: Vec<Mutex<Option<interp::CapturedFrame>>> = (0..prog.frames).map(|_| Mutex::new(None)).collect();
 
     // a fresh thread per case: the thread-local ACTIVE_TRACEPARENT starts clean whatever happened before
     let ran = std::thread::scope(|s| {
         s.spawn(|| {
             vcore::catch(|| {
-                let env = Env { rt: &rt, log: &log, skip_broken_hops, fail: &fail };
+                let env = Env { rt: &rt, log: &log, skip_broken_hops, fail: &fail, frames: &frames };
                 interp::run_root(&env, &prog)
             })
         })
@@ -700,6 +791,13 @@ pub fn judge(case: &Case, prog: &Prog, recs: &[Rec], log: &[L], cx: &mut Cx) -> 
         complete_with_sampled: false,
         complete_with_unsampled: false,
         in_header_scope_any: false,
+        captured: BTreeMap::new(),
+        foreign_in_sampled_span: false,
+        foreign_in_unsampled_span: false,
+        foreign_under_header: false,
+        foreign_how_call: false,
+        foreign_how_enter: false,
+        foreign_how_future: false,
         unwinding: false,
         unwound_scopes: 0,
         after_panic: false,
@@ -811,6 +909,13 @@ pub fn judge(case: &Case, prog: &Prog, recs: &[Rec], log: &[L], cx: &mut Cx) -> 
     cx.class_if(j.result_span_sampled, "form:result-span-in-sampled-trace");
     cx.class_if(j.complete_with_unsampled, "form:complete_with-in-unsampled-trace");
     cx.class_if(j.complete_with_sampled, "form:complete_with-in-sampled-trace");
+    cx.class_if(j.foreign_in_sampled_span, "foreign-frame:captured-outside-trace/entered-inside-sampled-span");
+    cx.class_if(j.foreign_in_unsampled_span, "foreign-frame:captured-outside-trace/entered-inside-unsampled-span");
+    cx.class_if(j.foreign_under_header, "foreign-frame:captured-outside-trace/entered-under-incoming-header");
+    cx.class_if(j.foreign_how_call, "foreign-frame:captured-outside-trace/entered-by-call");
+    cx.class_if(j.foreign_how_enter, "foreign-frame:captured-outside-trace/entered-by-enter-guard");
+    cx.class_if(j.foreign_how_future, "foreign-frame:captured-outside-trace/entered-by-in-future");
+    cx.class_if(prog.frames > 0, "captured-frame");
     cx.class_if(j.exit_panic_sync_call, "exit:panic-sync-call");
     cx.class_if(j.exit_panic_enter_guard, "exit:panic-enter-guard");
     cx.class_if(j.exit_panic_async, "exit:panic-async");
